@@ -6,6 +6,7 @@ use crate::Ctx;
 pub mod c01;
 pub mod c02;
 pub mod c03;
+pub mod c04;
 pub mod c05;
 pub mod c06;
 pub mod c07;
@@ -106,6 +107,15 @@ pub fn spec(id: &str) -> Option<Spec> {
             min_evaluations: 100,
             min_nontrivial: 40,
             run: c03::run,
+        },
+        "C04" => Spec {
+            id: "C04",
+            level: "exploration",
+            shards_quick: 8,
+            shards_thorough: 14,
+            min_evaluations: 1_000,
+            min_nontrivial: 200,
+            run: c04::run,
         },
         "C05" => Spec {
             id: "C05",
